@@ -129,6 +129,8 @@ type connState struct {
 	cmdCtx        context.Context
 	EndCtx        string // "" / "live" / "done": state of the last command\'s context once the connection had ended (sampled before teardown)
 	cancelSession context.CancelFunc
+	reusedErr     *mutableErr
+	parsed        map[string]wire.PreparedStatements
 	reader        *buffer.Reader
 	CapSeen       []int
 	ReuseTail     int
